@@ -83,7 +83,7 @@ def main():
     except BaseException as e:  # noqa
         out['crash'] = ''.join(traceback.format_exception(type(e), e, e.__traceback__))[-3000:]
     out['wall_s'] = round(time.time() - t0, 2)
-    real_stdout.write(json.dumps(out) + '\n')
+    real_stdout.write(json.dumps(out, default=repr) + '\n')
     real_stdout.flush()
 
 
